@@ -182,6 +182,57 @@ def check_gbs():
                         return bad(f"gbs compile {perm} {msplit}: dependent gates reordered")
 
 
+def check_gbs_register_histories():
+    """GBS measurement collection when the register changed before the measurements (Del / New are GBS primitives):
+    the merged MeasureFock acts on exactly the measured subsystems (by label, in ascending order), measuring a subset"""
+    cases = {
+        "no deleted mode, modes 3,1,0 measured": (4, lambda q: (ops.Sgate(0.4) | q[0], ops.BSgate(0.5, 0.1) | (q[0], q[3]),
+                                                               ops.MeasureFock() | q[3], ops.MeasureFock() | (q[1], q[0])), [0, 1, 3]),
+        "last mode deleted, modes 0,1 measured": (3, lambda q: (ops.BSgate(0.5, 0.1) | (q[1], q[2]), ops.Del | q[2],
+                                                               ops.MeasureFock() | (q[0], q[1])), [0, 1]),
+        "mode 0 deleted, mode 1 measured": (3, lambda q: (ops.Sgate(0.4) | q[0], ops.BSgate(0.5, 0.1) | (q[0], q[1]), ops.Del | q[0],
+                                                         ops.Sgate(0.2) | q[2], ops.MeasureFock() | q[1]), [1]),
+        "mode 0 deleted, modes 2,1 measured": (3, lambda q: (ops.BSgate(0.5, 0.1) | (q[0], q[1]), ops.Del | q[0],
+                                                            ops.MeasureFock() | q[2], ops.MeasureFock() | q[1]), [1, 2]),
+        "mode 1 deleted, mode 3 created, modes 0,2 measured": (3, None, [0, 2]),
+        "mode 1 deleted, mode 3 created, modes 3,0 measured": (3, None, [0, 3]),
+    }
+    for label, (n, body, expect) in cases.items():
+        EVAL[0] += 1
+        prog = sf.Program(n)
+        with prog.context as q:
+            if body is not None:
+                body(q)
+            else:
+                ops.Sgate(0.4) | q[1]
+                ops.BSgate(0.5, 0.1) | (q[1], q[2])
+                ops.Del | q[1]
+                (new,) = ops.New(1)
+                ops.BSgate(0.3, 0.0) | (q[2], new)
+                if expect == [0, 2]:
+                    ops.MeasureFock() | q[0]
+                    ops.MeasureFock() | q[2]
+                else:
+                    ops.MeasureFock() | new
+                    ops.MeasureFock() | q[0]
+        try:
+            out = prog.compile(compiler="gbs")
+        except Exception as e:
+            bad(f"gbs compile [{label}] raised {type(e).__name__}: {e}")
+            continue
+        meas = [c for c in out.circuit if type(c.op).__name__ == "MeasureFock"]
+        if len(meas) != 1 or out.circuit[-1] is not meas[0]:
+            bad(f"gbs compile [{label}]: measurements not collected into one trailing MeasureFock")
+            continue
+        got = [r.ind for r in meas[0].reg]
+        if got != expect:
+            bad(f"gbs compile [{label}]: merged MeasureFock acts on modes {got}, the program measures modes {expect}")
+        src = [(type(c.op).__name__, tuple(r.ind for r in c.reg)) for c in prog.circuit if type(c.op).__name__ != "MeasureFock"]
+        kept = [(type(c.op).__name__, tuple(r.ind for r in c.reg)) for c in out.circuit[:-1]]
+        if sorted(src) != sorted(kept):
+            bad(f"gbs compile [{label}]: the other commands changed: {kept}")
+
+
 if __name__ == "__main__":
     L = 3 if tier == "quick" else 4
     try:
@@ -203,6 +254,7 @@ if __name__ == "__main__":
         SAMPLES.append({"sequence": ["R0", "M0", "X0>1", "B12"], "max_exhaustive_length": L, "alphabet": [a[0] for a in ALPHA]})
         if not V:
             check_gbs()
+            check_gbs_register_histories()
     except Exception:
         import traceback
         traceback.print_exc()
